@@ -14,6 +14,8 @@ Data regenerated from the current source (fail-closed `ast` walkers):
   annotation_generic_raises   whether _Visitor.generic_visit raises
   expr_kinds                  the expression node kinds of this Python's `ast`
                               (data from the running interpreter)
+  show_error_subscripts       every `lines[...]` of BaseNodeVisitor.show_error with its guard,
+  show_error_context_bounds   the bounds of the context loop, CONTEXT_LINES (pins Total/Emit.v)
 """
 from __future__ import annotations
 
@@ -191,6 +193,55 @@ def annotation_visitor(repo):
     return methods, generic_raises
 
 
+def show_error_shape(repo):
+    """Every `lines[<index>]` evaluated by BaseNodeVisitor.show_error, in source
+    order, as (index text, test of the enclosing conditional expression whose
+    body holds the subscript, or ""), the two bounds of the context loop and
+    CONTEXT_LINES.  The Emit model is written for exactly this shape."""
+    tree = _parse(repo, "node_visitor.py")
+    cls = _find(tree, ast.ClassDef, "BaseNodeVisitor")
+    fn = None
+    ctx_lines = None
+    for st in cls.body:
+        if isinstance(st, ast.FunctionDef) and st.name == "show_error":
+            fn = st
+        if isinstance(st, ast.AnnAssign) and isinstance(st.target, ast.Name) and st.target.id == "CONTEXT_LINES":
+            if isinstance(st.value, ast.Constant) and isinstance(st.value.value, int):
+                ctx_lines = st.value.value
+        if isinstance(st, ast.Assign) and len(st.targets) == 1 and isinstance(st.targets[0], ast.Name) \
+                and st.targets[0].id == "CONTEXT_LINES" and isinstance(st.value, ast.Constant):
+            ctx_lines = st.value.value
+    if fn is None or ctx_lines is None:
+        raise TranslateError("node_visitor.py: show_error / CONTEXT_LINES not found")
+    parents = {}
+    for n in ast.walk(fn):
+        for c in ast.iter_child_nodes(n):
+            parents[c] = n
+    subs = []
+    for n in ast.walk(fn):
+        if isinstance(n, ast.Subscript) and isinstance(n.value, ast.Name) and n.value.id == "lines" and isinstance(n.ctx, ast.Load):
+            guard = ""
+            c = n
+            while c in parents:
+                p = parents[c]
+                if isinstance(p, ast.IfExp) and p.body is c:
+                    guard = ast.unparse(p.test)
+                    break
+                if isinstance(p, ast.stmt):
+                    break
+                c = p
+            subs.append((n.lineno, n.col_offset, ast.unparse(n.slice), guard))
+    subs.sort()
+    bounds = {}
+    for n in ast.walk(fn):
+        if isinstance(n, ast.Assign) and len(n.targets) == 1 and isinstance(n.targets[0], ast.Name) \
+                and n.targets[0].id in ("min_line", "max_line"):
+            bounds[n.targets[0].id] = ast.unparse(n.value)
+    if set(bounds) != {"min_line", "max_line"}:
+        raise TranslateError("node_visitor.py: context loop bounds not found")
+    return [(i, g) for _, _, i, g in subs], (bounds["min_line"], bounds["max_line"]), ctx_lines
+
+
 def expr_kinds():
     return sorted(c.__name__ for c in ast.expr.__subclasses__())
 
@@ -208,6 +259,8 @@ def translate(repo: str) -> str:
     h = value_hierarchy(repo)
     unwrapped, handled, else_raises = boolability_chain(repo)
     methods, generic_raises = annotation_visitor(repo)
+    subs, bounds, ctx_lines = show_error_shape(repo)
+    sub_rows = "; ".join(f"({_s(i)}, {_s(g)})" for i, g in subs)
     rows = ";\n".join(f"  ({_s(c)}, {_sl(a)})" for c, a in h)
     return (
         "(* GENERATED by harness/translate/total.py from pyanalyze/{error_code,value,boolability,annotations}.py -- do not edit *)\n"
@@ -219,7 +272,10 @@ def translate(repo: str) -> str:
         f"Definition boolability_else_raises : bool := {'true' if else_raises else 'false'}.\n\n"
         f"Definition annotation_visitor_methods : list string := {_sl(methods)}%list.\n"
         f"Definition annotation_generic_raises : bool := {'true' if generic_raises else 'false'}.\n"
-        f"Definition expr_kinds : list string := {_sl(expr_kinds())}%list.\n"
+        f"Definition expr_kinds : list string := {_sl(expr_kinds())}%list.\n\n"
+        f"Definition show_error_subscripts : list (string * string) := [{sub_rows}]%list.\n"
+        f"Definition show_error_context_bounds : string * string := ({_s(bounds[0])}, {_s(bounds[1])}).\n"
+        f"Definition show_error_context_lines : nat := {ctx_lines}.\n"
     )
 
 
